@@ -51,11 +51,30 @@ func (vc *VC) smtText(o *Obligation) string {
 		// everything reachable in the entry heap existed before the call
 		for _, name := range sortedKeys(vc.stateSort) {
 			sortName := vc.stateSort[name]
-			if sortName == "(Array Int Int)" && strings.HasPrefix(name, "F_") || strings.HasPrefix(name, "cell_Int") {
-				c := fmt.Sprintf("%s@0", name)
-				if vc.declared[c] {
-					fmt.Fprintf(&b, "(assert (forall ((x Int)) (! (is_old (select %s x)) :pattern ((select %s x)))))\n", c, c)
-				}
+			c := fmt.Sprintf("%s@0", name)
+			if !vc.declared[c] {
+				continue
+			}
+			heapArr := strings.HasPrefix(name, "F_") || strings.HasPrefix(name, "cell_") || strings.HasPrefix(name, "el_") || strings.HasPrefix(name, "mv_")
+			switch {
+			case sortName == "(Array Int Int)" && (strings.HasPrefix(name, "F_") || strings.HasPrefix(name, "cell_Int")):
+				fmt.Fprintf(&b, "(assert (forall ((x Int)) (! (=> (is_old x) (is_old (select %s x))) :pattern ((select %s x)))))\n", c, c)
+			case sortName == "(Array Int Iface)" && heapArr:
+				fmt.Fprintf(&b, "(assert (forall ((x Int)) (! (=> (is_old x) (is_old (if_val (select %s x)))) :pattern ((select %s x)))))\n", c, c)
+			case heapArr && strings.HasPrefix(sortName, "(Array Int (Array ") && strings.HasSuffix(sortName, " Int))"):
+				k := splitSortArgs(splitSortArgs(sortName)[1])[0]
+				fmt.Fprintf(&b, "(assert (forall ((x Int) (k %s)) (! (=> (is_old x) (is_old (select (select %s x) k))) :pattern ((select (select %s x) k)))))\n", k, c, c)
+			case heapArr && strings.HasPrefix(sortName, "(Array Int (Array ") && strings.HasSuffix(sortName, " Iface))"):
+				k := splitSortArgs(splitSortArgs(sortName)[1])[0]
+				fmt.Fprintf(&b, "(assert (forall ((x Int) (k %s)) (! (=> (is_old x) (is_old (if_val (select (select %s x) k)))) :pattern ((select (select %s x) k)))))\n", k, c, c)
+			case sortName == "(Array Int Slice)" && heapArr:
+				fmt.Fprintf(&b, "(assert (forall ((x Int)) (! (=> (is_old x) (is_old (sl_ref (select %s x)))) :pattern ((select %s x)))))\n", c, c)
+			case strings.HasPrefix(name, "g_") && sortName == "Slice":
+				fmt.Fprintf(&b, "(assert (is_old (sl_ref %s)))\n", c)
+			case strings.HasPrefix(name, "g_") && sortName == "Int":
+				fmt.Fprintf(&b, "(assert (is_old %s))\n", c)
+			case strings.HasPrefix(name, "g_") && sortName == "Iface":
+				fmt.Fprintf(&b, "(assert (is_old (if_val %s)))\n", c)
 			}
 		}
 		b.WriteString("(assert (is_old 0))\n")
@@ -241,6 +260,11 @@ func parseModel(out string, terms []string) map[string]string {
 // solveAll discharges the obligations in parallel; returns the scratch directory used.
 func solveAll(vcs []*VC, obls []*Obligation, vcOf map[*Obligation]*VC, tier string, scratch string) {
 	timeout := 20 * time.Second
+	if v := os.Getenv("GOVC_TIMEOUT"); v != "" {
+		if d, err := time.ParseDuration(v); err == nil {
+			timeout = d
+		}
+	}
 	if tier == "thorough" {
 		timeout = 60 * time.Second
 	}
